@@ -84,4 +84,42 @@ def patternSel (paths : List Path.LocPath) (ns : Path.NsMap) (xvs : Path.Ref.XVa
     | s0 :: rest =>
       Path.Ref.reach ns xvs (⟨.descendantOrSelf, s0.test, s0.preds⟩ :: rest) ⟨[], top⟩ ⟨loc, .leaf (.text [] false)⟩
 
+/-! ### the specification with the matches given as marks
+
+  `marks` holds one Boolean per event of the flattened forest, in order: "the pattern matcher reports
+  True at this event".  An element whose START is marked is replaced by the body; the marks of the
+  events inside are consumed either way. -/
+
+mutual
+  def mkNode (body : List BItem) (recursive : Bool) : Node → List Bool → List Event × List Bool
+    | .leaf e, ms => ([e], ms.tail)
+    | .elem tg at_ kids, ms =>
+      let r := mkKids body recursive kids ms.tail
+      (if ms.headD false then
+          instantiate body (.start tg at_ :: ((if recursive then r.1 else flattenList kids) ++ [.end_ tg]))
+        else .start tg at_ :: (r.1 ++ [.end_ tg]),
+       r.2.tail)
+  def mkKids (body : List BItem) (recursive : Bool) : List Node → List Bool → List Event × List Bool
+    | [], ms => ([], ms)
+    | n :: ns, ms =>
+      let a := mkNode body recursive n ms
+      let b := mkKids body recursive ns a.2
+      (a.1 ++ b.1, b.2)
+end
+
+/-- the verdicts of a matcher over a list of events (every event shown, none skipped), and its final state -/
+def marksOf {σ : Type} (step : σ → Event → Bool → σ × Bool) : σ → List Event → List Bool × σ
+  | s, [] => ([], s)
+  | s, e :: es =>
+    let r := step s e false
+    let q := marksOf step r.1 es
+    (r.2 :: q.1, q.2)
+
+/-- what the pattern matcher of the path model (`Path.test(ignore_context=True)` run over a whole
+    tree, C05 `pattern_matches_eq_xp`) reports per event of a tree -/
+def patternMarks (paths : List Path.LocPath) (ns : Path.NsMap) (vs : Path.Vars) (force : Option Path.Strategy)
+    (top : Node) : List Bool :=
+  (Path.runTest (Path.pathTest paths true force).1 ns vs (Path.pathTest paths true force).2 top.flatten).map
+    (· == Path.Val.bool true)
+
 end Genshi.Match
